@@ -29,7 +29,7 @@ ASSUMPTIONS = [
     "group-wise form is run with dataiter.USE_NUMBA = False (C08 compares the accelerated implementation with this one)",
 ]
 BOUND = {
-    "quick": "vector form: length 0..4 over 4-5 value alphabets per kind; group-wise: 1..3 rows x groups {1,2}^n x same alphabets; all drop_na in {default,True,False}, ddof {0,1}, index -3..3, q {0,.25,.5,1}",
+    "quick": "size ladder: periodic vectors / two-group frames of 17 and 130 elements; vector form: length 0..4 over 4-5 value alphabets per kind; group-wise: 1..3 rows x groups {1,2}^n x same alphabets; all drop_na in {default,True,False}, ddof {0,1}, index -3..3, q {0,.25,.5,1}",
     "thorough": "vector form: length 0..5; group-wise: 1..4 rows x groups {1,2}^n; same argument menus",
 }
 TIME_CAP = {"quick": 300, "thorough": 3000}
@@ -59,6 +59,9 @@ def helper_calls(family, kind):
                 calls += [(h, {"ddof": ddof, "drop_na": d}) for d in DROP]
         if kind in ("b1", "i8", "f8"):
             calls += [("all", {}), ("any", {})]
+        # order-sensitive helpers evaluated AFTER the numeric reductions in the same aggregate call:
+        # a reduction that reorders the shared column in place (partial sort) is seen here
+        calls += [("first", {"drop_na": False}), ("last", {"drop_na": False}), ("nth", {"index": 1, "drop_na": False}), ("mode", {"drop_na": False})]
     else:
         for h in ("count", "count_unique", "first", "last", "mode"):
             calls += [(h, {"drop_na": d}) for d in DROP]
@@ -76,6 +79,7 @@ def shards(tier):
     for family, alphas in (("stat", STAT_ALPHA), ("gen", GEN_ALPHA)):
         for kind in alphas:
             out.append({"part": "vector", "family": family, "kind": kind, "n": nv})
+            out.append({"part": "long", "family": family, "kind": kind})
             for m in range(1, ng + 1):
                 a = alphas[kind]
                 if len(a) ** m * 2 ** m > 2000:
@@ -215,10 +219,26 @@ def check_case(case, rec):
     rec.sample({"kind": kind, "toks": toks, "groups": groups, "calls": case["calls"][:2]})
 
 
+def long_cases(alpha, kind, calls):
+    """Periodic long vectors and two-group frames (101+ elements: fast paths often start above a threshold)."""
+    for length in (17, 130):
+        for p in (2, 3):
+            for pat in itertools.product(alpha, repeat=p):
+                if len(set(pat)) < 2:
+                    continue
+                toks = [pat[i % p] for i in range(length)]
+                yield {"kind": kind, "toks": toks, "calls": calls}
+                yield {"kind": kind, "toks": toks, "groups": [1 + (i % 5 == 0) for i in range(length)], "calls": calls}
+
+
 def run_shard(shard, rec):
     family, kind = shard["family"], shard["kind"]
     alpha = (STAT_ALPHA if family == "stat" else GEN_ALPHA)[kind]
     calls = [[h, kw] for h, kw in helper_calls(family, kind)]
+    if shard["part"] == "long":
+        for case in long_cases(alpha, kind, calls):
+            check_case(case, rec)
+        return
     if shard["part"] == "vector":
         for toks in V.seqs(alpha, 0, shard["n"]):
             check_case({"kind": kind, "toks": list(toks), "calls": calls}, rec)
